@@ -33,9 +33,24 @@ def rule_channel_order(ctx, repo):
     want = {("_xs", "x"), ("_ys", "y"), ("_zs", "z")}
     ctx.check(pairs is not None and want <= set(pairs), "C15.order", "unpack_np/pairs", "_xs->x, _ys->y, _zs->z",
               "dict-to-array pairing changed: %s" % (pairs,), u.W())
-    inner = [n for n in ast.walk(u.fn) if isinstance(n, ast.FunctionDef) and n.name == "_dict2array"]
-    ok = bool(inner) and Q.has("self.__dict__[dest][$i, :] = $v", inner[0]) and \
-        any(Q.match("enumerate(self.__dict__[src].values())", l.iter) for l in ast.walk(inner[0]) if isinstance(l, ast.For))
+    # row i of the array is the i-th stored row: `<array>[i, :] = v` inside `for i, v in enumerate(<storage>.values())`, wherever that loop
+    # lives (nested helper, method, or inlined)
+    ok = False
+    scopes = [u.fn] + [n for n in ast.walk(u.fn) if isinstance(n, ast.FunctionDef) and n is not u.fn]
+    for c_ in calls_in(u.fn):
+        d_ = dotted(c_.func) or ""
+        if d_.startswith("self.") and d_.count(".") == 1 and repo.has_method("DAETimeSeries", d_[5:], DAE):
+            scopes.append(repo.method("DAETimeSeries", d_[5:], DAE)[1])
+    for sc in scopes:
+        for l in ast.walk(sc):
+            if isinstance(l, ast.For) and isinstance(l.iter, ast.Call) and dotted(l.iter.func) == "enumerate" and l.iter.args and \
+                    isinstance(l.iter.args[0], ast.Call) and isinstance(l.iter.args[0].func, ast.Attribute) and l.iter.args[0].func.attr == "values" \
+                    and isinstance(l.target, ast.Tuple) and len(l.target.elts) == 2:
+                i_, v_ = src(l.target.elts[0]), src(l.target.elts[1])
+                for st_ in ast.walk(l):
+                    if isinstance(st_, ast.Assign) and isinstance(st_.targets[0], ast.Subscript) and isinstance(st_.targets[0].slice, ast.Tuple) \
+                            and src(st_.targets[0].slice.elts[0]) == i_ and src(st_.value) == v_:
+                        ok = True
     ctx.check(ok, "C15.order", "unpack_np/rows", "row i of the array = i-th stored row (insertion order)",
               "rows of the unpacked array no longer follow the storage order", u.W())
     w = F.method(repo, "DAE", "write_lst", DAE)
@@ -174,21 +189,95 @@ def rule_store_flow(ctx, repo):
     ctx.check(not bad, "C15.flow", "TDS.run/pre-store-effects", "%d call(s) between step acceptance and dae.store(), none writes x/y/t "
               "(resolved %d callee edges)" % (n_between, E.resolved_calls),
               "; ".join(sorted(set(b[1] for b in bad))[:3]) + " -- the stored row is not what the solver held", r.W(bad[0][0]) if bad else r.W())
-    t1 = [tn for tn in g.nodes() if g.data(tn)["kind"] == "test" and Q.match("config.save_every == 1", g.data(tn)["ast"].test)]
-    t2 = [tn for tn in g.nodes() if g.data(tn)["kind"] == "test" and Q.match("dae.kcount % config.save_every == 0", g.data(tn)["ast"].test)]
-    t0 = [tn for tn in g.nodes() if g.data(tn)["kind"] == "test" and Q.match("config.save_every != 0", g.data(tn)["ast"].test)]
-    ok = bool(t0 and t1 and t2) and len(stores) == 2
-    ctx.check(ok, "C15.flow", "TDS.run/thinning", "save_every: 0 none, 1 all, k every k-th step", "thinning logic changed", r.W())
+    # thinning, decided by evaluation: the condition under which some dae.store() of the accepted-step branch executes is computed from
+    # the enclosing tests (any nesting / boolean form) and compared with the documented meaning of save_every on a grid of values
+    from engine.ordertype import Interp, Unsupported
+    loop_w = [l for l in ast.walk(r.fn) if isinstance(l, ast.While)]
+    acc = [t_ for t_ in ast.walk(r.fn) if isinstance(t_, ast.If) and Q.match("step_status", t_.test) is not None]
+    store_stmts = [x for x in ast.walk(r.fn) if isinstance(x, ast.Expr) and isinstance(x.value, ast.Call) and (dotted(x.value.func) or "").endswith("dae.store")]
+    bad_t, undec_t, n_pts = [], None, 0
+    if not acc or not store_stmts:
+        undec_t = "accepted-step branch or store call not recognised"
+    else:
+        conds = [Q.path_condition(acc[0], x) for x in store_stmts]
+        conds = [c_ for c_ in conds if c_ is not None]
+        if not conds:
+            undec_t = "store call outside the accepted-step branch"
+        for se in (0, 1, 2, 3, 5):
+            for kc_ in range(0, 7):
+                env = {"self.config.save_every": se, "config.save_every": se, "self.system.dae.kcount": kc_, "dae.kcount": kc_, "step_status": True}
+                try:
+                    n_exec = 0
+                    for chain in conds:
+                        ok_ = True
+                        for test, pol in chain[1:] if chain and chain[0][0] is acc[0].test else chain:
+                            ok_ = ok_ and (bool(Interp(env).ev(test)) == pol)
+                        n_exec += 1 if ok_ else 0
+                except (Unsupported, ZeroDivisionError) as ex:
+                    if isinstance(ex, ZeroDivisionError):
+                        bad_t.append("save_every=%d, step %d: the guard divides by zero" % (se, kc_))
+                        continue
+                    undec_t = "front-end: %s" % ex
+                    break
+                n_pts += 1
+                want = 1 if (se != 0 and (se == 1 or kc_ % se == 0)) else 0
+                if n_exec != want:
+                    bad_t.append("save_every=%d, step %d: %d row(s) stored, expected %d" % (se, kc_, n_exec, want))
+            if undec_t:
+                break
+    if undec_t:
+        ctx.undecided("C15.flow", "TDS.run/thinning", undec_t, r.W())
+    else:
+        ctx.check(not bad_t, "C15.flow", "TDS.run/thinning", "save_every: 0 none, 1 all, k every k-th step (%d points evaluated)" % n_pts,
+                  "; ".join(bad_t[:3]), r.W())
     kc = [n for n in g.nodes() if g.data(n)["kind"] == "stmt" and Q.match("dae.kcount += 1", g.data(n)["ast"]) and g.guarded_by(n, st[0], "true")]
     ctx.check(bool(kc), "C15.flow", "TDS.run/kcount", "step counter advanced once per accepted step", "kcount no longer advanced per accepted step", r.W())
-    # offload: write then reset
-    t = [tn for tn in g.nodes() if g.data(tn)["kind"] == "test" and "limit_store" in src(g.data(tn)["ast"].test) and "max_store" in src(g.data(tn)["ast"].test)]
-    so = r.calls("self.save_output")
-    rs = r.calls("dae.ts.reset")
-    heads = [n for n in g.nodes() if g.data(n)["kind"] == "loop"]
-    so_in = [x for x in so if t and g.guarded_by(x, t[0], "true")]
-    ok = bool(t and so_in and rs) and all(g.guarded_by(n, t[0], "true") for n in rs) and not g.reachable(rs[0], so_in[0], avoid=heads)
-    ctx.check(ok, "C15.flow", "TDS.run/offload", "chunk written before the in-memory series is cleared", "off-loading clears memory before writing", r.W())
+    # offload: the chunk is written (unless output is disabled) exactly when the memory is cleared, and before it
+    so_st = [x for x in ast.walk(r.fn) if isinstance(x, ast.Expr) and isinstance(x.value, ast.Call) and dotted(x.value.func) == "self.save_output"]
+    rs_st = [x for x in ast.walk(r.fn) if isinstance(x, ast.Expr) and isinstance(x.value, ast.Call) and (dotted(x.value.func) or "").endswith("dae.ts.reset")]
+    so_in = [x for x in so_st if acc and Q.path_condition(acc[0], x) is not None]
+    bad_o, undec_o = [], None
+    if not so_in or not rs_st or not acc:
+        undec_o = "off-load block (save_output / ts.reset in the accepted-step branch) not recognised"
+    else:
+        cw = Q.path_condition(acc[0], so_in[0])[1:]
+        cr = Q.path_condition(acc[0], rs_st[0])
+        cr = cr[1:] if cr else None
+        if cr is None:
+            undec_o = "ts.reset outside the accepted-step branch"
+        else:
+            class _Len:
+                def __init__(self, n):
+                    self.n = n
+            for lim in (0, 1):
+                for nrows in (0, 2, 3, 5):
+                    for noout in (False, True):
+                        env = {"self.config.limit_store": lim, "config.limit_store": lim, "self.config.max_store": 3, "config.max_store": 3,
+                               "self.system.files.no_output": noout, "system.files.no_output": noout}
+                        funcs = {"len": lambda a_: nrows}
+                        env["self.system.dae.ts._ys"] = 0
+                        env["dae.ts._ys"] = 0
+                        try:
+                            w_ = all(bool(Interp(env, funcs).ev(t_)) == pol for t_, pol in cw)
+                            r_ = all(bool(Interp(env, funcs).ev(t_)) == pol for t_, pol in cr)
+                        except Unsupported as ex:
+                            undec_o = "front-end: %s" % ex
+                            break
+                        want_r = bool(lim) and nrows >= 3
+                        want_w = want_r and not noout
+                        if r_ != want_r or w_ != want_w:
+                            bad_o.append("limit_store=%d, %d rows, no_output=%s: write=%s clear=%s, expected write=%s clear=%s" % (
+                                lim, nrows, noout, w_, r_, want_w, want_r))
+            son = [n for n in g.nodes() if g.data(n)["kind"] == "stmt" and g.data(n)["ast"] is so_in[0]]
+            rsn = [n for n in g.nodes() if g.data(n)["kind"] == "stmt" and g.data(n)["ast"] is rs_st[0]]
+            heads = [n for n in g.nodes() if g.data(n)["kind"] == "loop"]
+            if son and rsn and g.reachable(rsn[0], son[0], avoid=heads):
+                bad_o.append("the in-memory series is cleared before the chunk is written")
+    if undec_o:
+        ctx.undecided("C15.flow", "TDS.run/offload", undec_o, r.W())
+    else:
+        ctx.check(not bad_o, "C15.flow", "TDS.run/offload", "chunk written (unless output is off) exactly when, and before, the in-memory series is cleared",
+                  "; ".join(bad_o[:3]), r.W())
     s = F.method(repo, "TDS", "save_output", TDS)
     ok = Q.has("self.system.dae.ts.idx_ptr = len(self.system.dae.ts.t)", s.fn)
     ctx.check(ok, "C15.flow", "TDS.save_output/pointer", "write pointer advanced after every write", "idx_ptr not updated after writing", s.W())
@@ -322,7 +411,7 @@ def rule_replay(ctx, repo):
 
 
 def run(ctx):
-    ctx.rule("C15.fresh", "cached views are refreshed by their readers on the off-load path / dropped by unpack(); header and body share the index list", 4)
+    ctx.rule("C15.fresh", "cached views are refreshed by their readers on the off-load path / dropped by unpack(); header and body share the index list", 3)
     ctx.rule("C15.replay", "csv replay: row pointer and clock advance together at every calc_h call site", 3)
     ctx.rule("C15.order", "channel order t,x,y,z agrees at writer/reader sites (unpack, lst, npz, plot loader, csv replay)", 11)
     ctx.rule("C15.copy", "stored rows are fresh arrays keyed by a float copy of t; channels paired", 4)
